@@ -186,6 +186,11 @@ impl Allocator {
     }
 
     fn manage_state(gc: &mut BoaGc) {
+        #[cfg(boa_verif)]
+        if verif::stress_tick() {
+            Collector::collect(gc);
+        }
+
         if gc.runtime.bytes_allocated > gc.config.threshold {
             Collector::collect(gc);
 
@@ -543,6 +548,56 @@ pub fn force_collect() {
 
 #[cfg(test)]
 mod test;
+
+/// Verification hooks (only compiled with `--cfg boa_verif`); inert unless turned on.
+#[cfg(boa_verif)]
+pub mod verif {
+    use super::BOA_GC;
+    use std::cell::Cell;
+
+    thread_local! {
+        static STRESS_EVERY: Cell<u64> = const { Cell::new(0) };
+        static STRESS_COUNT: Cell<u64> = const { Cell::new(0) };
+    }
+
+    /// Forces a collection at every `every_n`-th allocation of this thread (`0` turns it off).
+    pub fn set_stress(every_n: u64) {
+        STRESS_EVERY.with(|c| c.set(every_n));
+        STRESS_COUNT.with(|c| c.set(0));
+    }
+
+    pub(crate) fn stress_tick() -> bool {
+        let every = STRESS_EVERY.with(Cell::get);
+        if every == 0 {
+            return false;
+        }
+        STRESS_COUNT.with(|c| {
+            let n = c.get() + 1;
+            if n >= every {
+                c.set(0);
+                true
+            } else {
+                c.set(n);
+                false
+            }
+        })
+    }
+
+    /// `(strong boxes, ephemeron boxes, weak maps, bytes allocated, collections)` of this thread's heap.
+    #[must_use]
+    pub fn stats() -> (usize, usize, usize, usize, usize) {
+        BOA_GC.with(|current| {
+            let gc = current.borrow();
+            (
+                gc.strongs.len(),
+                gc.weaks.len(),
+                gc.weak_maps.len(),
+                gc.runtime.bytes_allocated,
+                gc.runtime.collections,
+            )
+        })
+    }
+}
 
 /// Returns `true` is any weak maps are currently allocated.
 #[cfg(test)]
